@@ -862,6 +862,7 @@ func streamCors(g *G) { // C11, C12
 		}
 		g.emit("handle %d /a 1 %%- %s", rid, encL([]string{"GET", "POST"}))
 		g.emit("handle %d %s 2 %%- %s", rid, encB("/u/{id}"), encL([]string{"PUT"}))
+		var reqs []corsReq
 		for i := 0; i < 40; i++ {
 			var h []kv
 			switch g.intn(6) {
@@ -902,9 +903,34 @@ func streamCors(g *G) { // C11, C12
 			m := g.pick([]string{"OPTIONS", "OPTIONS", "GET", "POST", "PUT", "DELETE", "HEAD", "", "TRACE"})
 			p := g.pick([]string{"/a", "/a", "/u/5", "/none", "*"})
 			g.serveLine("serve", rid, m, p, "", h)
+			reqs = append(reqs, corsReq{m, p, h})
+		}
+		if g.chance(0.35) {
+			// the same configuration as a Group option: NewGroup applies the options once, every Group.New applies the SAME
+			// option values again to the router it creates
+			ra, rb := 100000+rid, 200000+rid
+			g.emit("group %d 0 %s %%_ %%- 1 %s %s %s %d %s", rid, b2s(o.trace), encL(o.origins), encL(o.allowH), encL(o.exposed), o.maxAge, b2s(o.cred))
+			g.emit("group-new %d %d %s pv:%%_:v9", rid, ra, encB("ga"))
+			g.emit("group-new %d %d %s any", rid, rb, encB("gb"))
+			for _, r := range []int{ra, rb} {
+				g.emit("handle %d /a 1 %%- %s", r, encL([]string{"GET", "POST"}))
+				g.emit("handle %d %s 2 %%- %s", r, encB("/u/{id}"), encL([]string{"PUT"}))
+			}
+			for i, q := range reqs {
+				if i >= 16 {
+					break
+				}
+				g.serveLine("gserve", rid, q.m, q.p, "", q.h)
+				g.serveLine("serve", rb, q.m, q.p, "", q.h)
+			}
 		}
 		rid++
 	}
+}
+
+type corsReq struct {
+	m, p string
+	h    []kv
 }
 
 func (g *G) matcherExpr(depth int, hostIDs []int) string {
@@ -1046,6 +1072,33 @@ func streamHosts(g *G) { // C14
 			}
 			probe()
 			for _, d := range []string{"api." + tld, "APP." + tld, "cdn." + tld} {
+				g.emit("hosts-del %d %s", hid, encB(d))
+				probe()
+			}
+			hid++
+		}
+		if g.chance(0.25) {
+			// an interceptor registered AFTER domains that use its name as a rule: later domains with the same token are
+			// interceptor nodes, earlier ones regexp nodes with the same text; then deletes
+			tok := g.pick([]string{"{a:digit}", "{a:word}"})
+			name := tok[3 : len(tok)-1]
+			val := map[string]string{"digit": "5", "word": "ab"}[name]
+			early := []string{tok + ".x.com", tok + ".x.org"}
+			late := []string{tok + ".x.net", tok + ".x.org2"}
+			g.emit("hosts %d %s", hid, encL(early))
+			probe := func() {
+				for _, h := range []string{val + ".x.com", val + ".x.org", val + ".x.net", val + ".x.org2", name + ".x.com", name + ".x.org", name + ".x.net", "zz.x.net"} {
+					g.emit("hosts-match %d %s", hid, encB(h))
+				}
+			}
+			probe()
+			g.emit("hosts-icpt %d %s %d", hid, encB(name), map[string]int{"digit": 1, "word": 2}[name])
+			probe()
+			for _, d := range late {
+				g.emit("hosts-add %d %s", hid, encB(d))
+				probe()
+			}
+			for _, d := range append(append([]string{}, early...), late[0]) {
 				g.emit("hosts-del %d %s", hid, encB(d))
 				probe()
 			}
@@ -1295,6 +1348,18 @@ func streamTrace(g *G) { // C18
 			hdrs := []kv{{"X-H", g.pick([]string{"1", "<b>", "a&b"})}}
 			withBody := g.chance(0.5)
 			path := g.pick([]string{"/a", "/<x>", "/a&b"})
+			if g.chance(0.5) { // exactly ONE kind of metacharacter in the whole dump
+				meta := g.pick([]string{"'", "\"", "<", ">", "&"})
+				body, hdrs, path, withBody = "plain", []kv{{"X-H", "1"}}, "/a", true
+				switch g.intn(3) {
+				case 0:
+					body = "it" + meta + "s"
+				case 1:
+					hdrs = []kv{{"X-Name", "O" + meta + "Brien"}}
+				default:
+					body = meta
+				}
+			}
 			req := mkRequest(encB("TRACE"), encB(path), encB("example.com"), encKVs(hdrs))
 			req.Body = io.NopCloser(strings.NewReader(body))
 			dump := "%!"
